@@ -39,5 +39,6 @@ let () = run_protocol [
       (match r with [kinv; cond; code; lam; mean; callable; post] ->
          (match get_mean o s (gm kinv) (gv cond) (norm_bwd o (gn code) (gf lam)) (gf mean) (gb callable) (gb post) with
           | None -> VNone | Some x -> VF x) | _ -> failwith "arity"));
+  "poly_drifts", (function [dim; order; m; pos] -> VM (poly_drifts o (gn dim) (gn order) (gn m) (gm pos)) | _ -> failwith "arity");
   "grid", (function axes -> VM (grid (List.map gv axes)));
 ]
